@@ -389,7 +389,12 @@ class Sym:
         return out + exits
 
     def ev_Closure(self, n, st):
-        return [(st, (VAL, ("closure", n["def"])))]
+        caps = []
+        for u in n.get("upvars", []):
+            u = F.strip(u)
+            if u.get("k") in ("Var", "Upvar"):
+                caps.append((u["id"], self.read_var(u, st)))
+        return [(st, (VAL, ("closure", n["def"], tuple(caps))))]
 
     def ev_Unary(self, n, st):
         if n["op"] == "Not" and n.get("ty") == "bool":
@@ -411,7 +416,22 @@ class Sym:
     def ev_Binary(self, n, st):
         op = n["op"]
         if op in ("Eq", "Ne", "Lt", "Le", "Gt", "Ge"):
-            return self.bool_value(n, st)
+            # value position: a comparison is an atom term (conditions fork on it later)
+            done, exits = self.ev_seq([n["l"], n["r"]], st)
+            out = []
+            for s, (a, b) in done:
+                if op in ("Eq", "Ne"):
+                    t = ("eq", a, b)
+                elif op in ("Lt", "Ge"):
+                    t = ("lt", a, b)
+                else:
+                    t = ("lt", b, a)
+                r = simplify_atom(t)
+                t = (TRUE if r else FALSE) if isinstance(r, bool) else r
+                if op in ("Ne", "Ge", "Le"):
+                    t = (FALSE if t == TRUE else TRUE) if t in (TRUE, FALSE) else (t[1] if t[0] == "not" else ("not", t))
+                out.append((s, (VAL, t)))
+            return out + exits
         done, exits = self.ev_seq([n["l"], n["r"]], st)
         out = []
         for s, (a, b) in done:
@@ -961,6 +981,9 @@ class Sym:
             full = [None] * off + list(args)
             res = []
             sub = St(dict(st.env), dict(st.store), st.conds, st.effects, st.n)
+            for cid, cv in (fval[2] if len(fval) > 2 else ()):
+                if cid not in sub.env:
+                    sub.env[cid] = cv       # captured value (used when applied outside the defining state)
             outs = [(sub, None)]
             for i, p in enumerate(params):
                 pat = p.get("pat")
@@ -1061,7 +1084,11 @@ def parse_const(v, ty):
 def tstr(t, depth=0):
     if not isinstance(t, tuple):
         return str(t)
+    if not t:
+        return "()"
     k = t[0]
+    if not isinstance(k, str):
+        return "(%s)" % ", ".join(tstr(x, depth + 1) for x in t)
     if depth > 12:
         return "…"
     d = depth + 1
@@ -1108,7 +1135,7 @@ def tstr(t, depth=0):
     if k == "not":
         return "!(%s)" % tstr(t[1], d)
     if k == "closure":
-        return "|%s|" % t[1].split("::")[-1]
+        return "|%s|" % t[1].split("::")[-1].strip("{}")
     if k == "fnref":
         return t[1].split("::")[-1]
     if k == "upd":
